@@ -18,9 +18,14 @@ Inductive fault :=
 | FDupKey              (* the same key stored twice *)
 | FVacant              (* a bucket handle that designates no element *)
 | FGrowLoop            (* insert would recurse into grow twice *)
+| FUnreachable         (* core::hint::unreachable_unchecked() reached *)
 | FOracle              (* infeasible oracle value: broken correspondence, not a property failure *)
 | FStranded            (* old table released while it still holds elements the cursor skipped *)
-| FBadOp.              (* ill-formed trace line *)
+| FBadOp.              (* ill-formed history (a call Rust's types or borrow rules forbid) *)
+
+(* The two faults that say nothing about the code: the theorems quantify over every oracle and
+   every history, so an infeasible oracle value or an ill-formed history makes them vacuous. *)
+Definition benign (f : fault) : Prop := f = FOracle \/ f = FBadOp.
 
 Inductive res (S A : Type) :=
 | Ok (a : A) (s : S)
@@ -83,7 +88,7 @@ Definition wp {S A} (m : M S A) (Q : A -> S -> Prop) (U : panic -> S -> Prop) (s
   match m s with
   | Ok a s' => Q a s'
   | Unwind p s' => U p s'
-  | Fault _ => False
+  | Fault f => benign f
   end.
 
 Lemma wp_ret {S A} (a : A) (Q : A -> S -> Prop) (U : panic -> S -> Prop) (s : S) : Q a s -> wp (ret a) Q U s.
@@ -115,12 +120,58 @@ Lemma wp_modify {S} (f : S -> S) (Q : unit -> S -> Prop) (U : panic -> S -> Prop
 Proof. exact (fun H => H). Qed.
 Lemma wp_unwind {S A} p (Q : A -> S -> Prop) (U : panic -> S -> Prop) (s : S) : U p s -> wp (unwind p) Q U s.
 Proof. exact (fun H => H). Qed.
-Lemma wp_fault {S A} f (Q : A -> S -> Prop) (U : panic -> S -> Prop) (s : S) : wp (fault_ f) Q U s -> False.
-Proof. exact (fun H => H). Qed.
+Lemma wp_fault {S A} f (Q : A -> S -> Prop) (U : panic -> S -> Prop) (s : S) : wp (fault_ f) Q U s <-> benign f.
+Proof. reflexivity. Qed.
+Lemma wp_oracle {S A} (Q : A -> S -> Prop) (U : panic -> S -> Prop) (s : S) : wp (fault_ FOracle) Q U s.
+Proof. left. reflexivity. Qed.
+Lemma wp_badop {S A} (Q : A -> S -> Prop) (U : panic -> S -> Prop) (s : S) : wp (fault_ FBadOp) Q U s.
+Proof. right. reflexivity. Qed.
 
 Lemma wp_on_unwind {S A} (m : M S A) h (Q : A -> S -> Prop) (U : panic -> S -> Prop) (s : S) :
   wp m Q (fun p s' => wp h (fun _ s'' => U p s'') U s') s -> wp (on_unwind m h) Q U s.
 Proof. unfold wp, on_unwind. destruct (m s); auto. destruct (h s0); auto. Qed.
+
+Lemma wp_when {S} (b : bool) (m : M S unit) (Q : unit -> S -> Prop) (U : panic -> S -> Prop) (s : S) :
+  (b = true -> wp m Q U s) -> (b = false -> Q tt s) -> wp (when b m) Q U s.
+Proof. destruct b; cbn; auto. Qed.
+
+(* ------------------------------------------------------------------ partial wp: facts about
+   normal completion only (costs, ledgers); needs no invariant *)
+Definition wpp {S A} (m : M S A) (Q : A -> S -> Prop) (U : panic -> S -> Prop) (s : S) : Prop :=
+  match m s with
+  | Ok a s' => Q a s'
+  | Unwind p s' => U p s'
+  | Fault _ => True
+  end.
+Lemma wpp_ret {S A} (a : A) (Q : A -> S -> Prop) (U : panic -> S -> Prop) (s : S) : Q a s -> wpp (ret a) Q U s.
+Proof. exact (fun H => H). Qed.
+Lemma wpp_bind {S A B} (m : M S A) (f : A -> M S B) (Q : B -> S -> Prop) (U : panic -> S -> Prop) (s : S) :
+  wpp m (fun a s' => wpp (f a) Q U s') U s -> wpp (bind m f) Q U s.
+Proof. unfold wpp, bind. destruct (m s); auto. Qed.
+Lemma wpp_conseq {S A} (m : M S A) (Q Q' : A -> S -> Prop) (U U' : panic -> S -> Prop) s :
+  wpp m Q U s -> (forall a s', Q a s' -> Q' a s') -> (forall p s', U p s' -> U' p s') -> wpp m Q' U' s.
+Proof. unfold wpp. destruct (m s); auto. Qed.
+Lemma wpp_mono {S A} (m : M S A) (Q Q' : A -> S -> Prop) (U : panic -> S -> Prop) s :
+  wpp m Q U s -> (forall a s', Q a s' -> Q' a s') -> wpp m Q' U s.
+Proof. intros H HQ. eapply wpp_conseq; eauto. Qed.
+Lemma wpp_on_unwind {S A} (m : M S A) h (Q : A -> S -> Prop) (U : panic -> S -> Prop) (s : S) :
+  wpp m Q (fun p s' => wpp h (fun _ s'' => U p s'') U s') s -> wpp (on_unwind m h) Q U s.
+Proof. unfold wpp, on_unwind. destruct (m s); auto. destruct (h s0); auto. Qed.
+Lemma wpp_when {S} (b : bool) (m : M S unit) (Q : unit -> S -> Prop) (U : panic -> S -> Prop) (s : S) :
+  (b = true -> wpp m Q U s) -> (b = false -> Q tt s) -> wpp (when b m) Q U s.
+Proof. destruct b; cbn; auto. Qed.
+Lemma wp_wpp_and {S A} (m : M S A) (Q1 Q2 : A -> S -> Prop) (U1 U2 : panic -> S -> Prop) (s : S) :
+  wp m Q1 U1 s -> wpp m Q2 U2 s -> wp m (fun a s' => Q1 a s' /\ Q2 a s') (fun p s' => U1 p s' /\ U2 p s') s.
+Proof. unfold wp, wpp. destruct (m s); auto. Qed.
+Lemma wpp_iterM {S A} (f : A -> M S unit) (I : list A -> S -> Prop) (U : panic -> S -> Prop) l s :
+  I l s ->
+  (forall a r s, I (cons a r) s -> wpp (f a) (fun _ s' => I r s') U s) ->
+  wpp (iterM f l) (fun _ s' => I nil s') U s.
+Proof.
+  intros HI Hstep. revert s HI. induction l as [|a l IH]; intros s HI; cbn [iterM].
+  - apply wpp_ret. exact HI.
+  - apply wpp_bind. eapply wpp_mono; [apply Hstep; exact HI|]. intros ? s' H'. apply IH. exact H'.
+Qed.
 
 Lemma wp_catch {S A} (m : M S A) (Q : A + panic -> S -> Prop) (U : panic -> S -> Prop) (s : S) :
   wp m (fun a s' => Q (inl a) s') (fun p s' => Q (inr p) s') s -> wp (catch m) Q U s.
@@ -134,7 +185,7 @@ Lemma wp_ok_inv {S A} (m : M S A) (Q : A -> S -> Prop) (U : panic -> S -> Prop) 
 Proof. unfold wp. intros H E. rewrite E in H. exact H. Qed.
 Lemma wp_unwind_inv {S A} (m : M S A) (Q : A -> S -> Prop) (U : panic -> S -> Prop) (s : S) p s' : wp m Q U s -> m s = Unwind p s' -> U p s'.
 Proof. unfold wp. intros H E. rewrite E in H. exact H. Qed.
-Lemma wp_no_fault {S A} (m : M S A) (Q : A -> S -> Prop) (U : panic -> S -> Prop) (s : S) f : wp m Q U s -> m s <> Fault f.
+Lemma wp_no_fault {S A} (m : M S A) (Q : A -> S -> Prop) (U : panic -> S -> Prop) (s : S) f : wp m Q U s -> m s = Fault f -> benign f.
 Proof. unfold wp. intros H E. rewrite E in H. exact H. Qed.
 
 Lemma wp_iterM {S A} (f : A -> M S unit) (I : list A -> S -> Prop) (U : panic -> S -> Prop) l s :
